@@ -209,6 +209,8 @@ add("C19", M, TO, "        self._predict_method = self.predict_method", "       
 add("C19", M, MO, "        self.X = X\n        self._y = y", "        if self.data_loaded:\n            raise RuntimeError(\"loaded\")\n        self.X = X\n        self._y = y", "latch (F4)")
 add("C19", M, EG, "        check_is_fitted(self)\n        random_state = check_random_state(random_state)", "        check_is_fitted(self)\n        self.random_state_ = random_state = check_random_state(random_state)", "predict writes state")
 add("C19", M, GS, "            grid = self.grid\n\n", "            grid = self.grid\n        self.grid = grid\n\n", "ctor param written")
+add("C19", M, GS, "        self.predictors_ = []\n", "", "records accumulate across fits")
+add("C19", M, EG, "        self.lambda_vecs_EG_ = pd.DataFrame()\n", "", "multiplier history accumulates across fits")
 add("C19", R, GS, "            raise RuntimeError(\"Unsupported selection rule\")\n\n        return self", "            raise RuntimeError(\"Unsupported selection rule\")\n\n        result = self\n        return result", "alias return")
 add("C20", M, IV, "if enforce_binary_labels and not set(np.unique(y)).issubset(set([0, 1])):", "if enforce_binary_labels and not set(np.unique(y)).issubset(set([0, 1, -1])):", "label set widened")
 add("C20", M, IV, "        check_consistent_length(X, control_features)\n", "", "length check dropped")
